@@ -184,9 +184,7 @@ def read_region(E, shape, r):
         E.eq(_vals(gs), want, "sparse region read")
 
 
-# (1-way shape (3,) is not registered here: list keys on a 1-way tensor hit a substrate difference (a TypeError in the
-# symbolic run that the real code does not raise), and bare integer keys on 1-way tensors are a known finding)
-@ob("C04", params=[dict(shape=(2, 2)), dict(shape=(2, 3), _tier="thorough")], max_paths=40000,
+@ob("C04", params=[dict(shape=(2, 2)), dict(shape=(3,), _tier="thorough"), dict(shape=(2, 3), _tier="thorough")], max_paths=40000,
     bounds="reads by linear index: int in [-size, size-1], slice, list, array; full subscripts with negative entries; subscript arrays")
 def read_linear_and_subscripts(E, shape):
     """X[k], X[a:b], X[[k1,k2]], X[subs] return the addressed entries, first index fastest, dense and sparse alike"""
